@@ -1,5 +1,6 @@
 import CssVerif.Model.Profiles
 import CssVerif.Model.MacroRank
+import CssVerif.Model.ProfilesSpec
 import CssVerif.Gen.C14Profiles
 import Std.Data.HashMap
 import Std.Data.HashSet
@@ -20,6 +21,8 @@ Stateful line-protocol driver for the profile-registry model (C14). See `tools/h
   vwp <name> <value> <names> validateWithProfile                                             -> OK v m a,b | ERR <exc>
   pbp <names>                propertiesByProfile                                             -> OK a,b | ERR <exc>
   expand <macros> <value>    _expand_macros on one value with exactly these macros           -> OK <s> | ERR <exc>
+  spec <names> <name> <props> <macros> ...   the observables of the registry computed from these contents and this
+                             defaultProfiles value alone (`specReg`), same format as dump                 -> names=...
   phs <value>                the placeholder names of the value (re.findall)                 -> OK a,b
   acyc <macros>              cycle check and closedness of a macro set                       -> OK 0|1 0|1
   passes <macros> <value>    number of re.sub passes, and the proved bound (- if cyclic)     -> OK <n> <bound> | ERR <exc>
@@ -202,6 +205,10 @@ def stepLine (st : St) (line : String) : St × String :=
       | some m, some v => match expandValue (m.getD []) theCfg.fuel v with
           | .ok s => (st, "OK " ++ encCps s)
           | .error e => (st, "ERR " ++ showExc e)
+      | _, _ => (st, "bad-op")
+  | "spec" :: dflt :: rest => match decNames dflt, decDefs rest with
+      | some dflt, some l =>
+          (st, dump st.pats (specReg theCfg (l.map fun e => (e.name, e.props, e.macros.getD [])) dflt) [])
       | _, _ => (st, "bad-op")
   | ["phs", v] => match decCps v with
       | some v => (st, "OK " ++ listEnc (phNames v))
